@@ -34,7 +34,23 @@ func H_C20_Sequence() {
 	shut, left := false, false
 	steps := 4 + vTier()
 	for i := 0; i < steps; i++ {
-		switch vPick(10) {
+		switch vPick(12) {
+		case 10:
+			// Leave has begun on another goroutine: it raises the flag before it marks the record
+			if !shut {
+				m.leave.Store(1)
+				left = true
+			}
+		case 11:
+			// a peer's accusation about us is handled (refuted while running, accepted once leaving)
+			me := m.nodeMap[vSelf]
+			if me != nil {
+				if vPick(2) == 0 {
+					m.deadNode(&dead{Incarnation: me.Incarnation, Node: vSelf, From: vPeerA})
+				} else {
+					m.suspectNode(&suspect{Incarnation: me.Incarnation, Node: vSelf, From: vPeerA})
+				}
+			}
 		case 0:
 			if shut {
 				vExpectPanic("leave after shutdown") // documented
